@@ -65,4 +65,11 @@ Emit == cfg.shape = <<>> \/ PrintT(ToJson([shape |-> cfg.shape, d |-> [a \in 1..
 LMSize(lmax, mmax) == (lmax + 1) + 2 * ((mmax * (2 * lmax - mmax + 1)) \div 2)          \* m = 0 once, m > 0 with real and imaginary part
 LMCount(lmax, mmax) == Cardinality({<<l, m>> \in (0..lmax) \X (0..mmax) : m <= l /\ m = 0}) + 2 * Cardinality({<<l, m>> \in (0..lmax) \X (0..mmax) : m <= l /\ m > 0})
 ASSUME \A lmax \in 0..5 : \A mmax \in 0..lmax : LMSize(lmax, mmax) = LMCount(lmax, mmax)
+\* default partner domains: LMSpace(lmax, mmax) -> GLSpace(nlat = lmax + 1, nlon = 2 mmax + 1); GLSpace(nlat, nlon) -> LMSpace(max(nlon div 2, nlat - 1), nlon div 2);
+\* going there and back returns the spherical-harmonic space one started from (the grid can hold every band-limited function)
+GLofLM(l, m) == <<l + 1, 2 * m + 1>>
+LMofGL(nlat, nlon) == LET mm == nlon \div 2 IN <<IF mm > nlat - 1 THEN mm ELSE nlat - 1, mm>>
+ASSUME \A lmax \in 0..6 : \A mmax \in 0..lmax : LMofGL(GLofLM(lmax, mmax)[1], GLofLM(lmax, mmax)[2]) = <<lmax, mmax>>
+\* regular grids: the partner of a grid with n pixels of size d has pixels of size 1 / (n d); the partner of the partner is the grid itself
+ASSUME \A n \in 1..6 : \A d \in Dists : RInv(RMul(Z(n), RInv(RMul(Z(n), d)))) = d
 =============================================================================
